@@ -69,7 +69,7 @@ SOURCES = [
        subst=[(r'self\(\)\.need_more_hes\(\)', 'CB_need_more_hes(self)', 'need_more_hes'), (r'\bhint\b', '(*hint_p)', 'hint_ref')],
        may_throw=['CB_need_more_hes'],
        must_fire={'subst:need_more_hes': 1, 'may_throw:CB_need_more_hes': 1, 'method:add_guard': 2, 'method:set_era': 1, 'method:get_link': 1,
-                  'member:last_hazard_era': 5, 'member:last_era': 2}),
+                  'member:last_hazard_era': 4, 'member:last_era': 2}),
   dict(TCB, id='cb_release_hazard_era', file=IMPL, sig=r'void release_hazard_era\(hazard_era\*& he, hint& hint\)',
        c_sig='static void cb_release_hazard_era(struct tcb* self, struct hazard_era** he_p, struct hazard_era** hint_p)',
        subst=[(r'\bhint\b', '(*hint_p)', 'hint_ref'), (r'\bhe\b', '(*he_p)', 'he_ref')],
